@@ -7,9 +7,11 @@
                                                                  decoding, limit, lazy zero-edge path)
     pagination.go:577-657            completeConnection       → `complete`
 
-  Cursors are integers (`Cursor := Int`) compared with `<` — the Go code is generic in the cursor
-  type and only ever calls `LessThan`; an edge is identified by its cursor (the property is about
-  edge sets with distinct cursors). What the model does *not* fix is a parameter:
+  The Go code is generic in the cursor type and only ever calls `LessThan`; so is the model: cursors
+  are any type `α` with a comparator `lt : α → α → Bool` (the driver `c09model` uses `Int` with `<`,
+  the C16 model uses (nanoseconds, id) pairs ordered lexicographically). An edge is identified by
+  its cursor (the property is about edge sets with distinct cursors). What the model does *not* fix
+  is a parameter:
 
     * `sort`   : what `sort.Slice` does to the filtered slice (theorems assume only that it returns a
                  permutation ordered by the comparator; the driver uses `isort`);
@@ -30,45 +32,46 @@
 -/
 namespace ApiFu.C09
 
-abbrev Cursor := Int
-
 /-- `pagination.PageInfo`. -/
-structure PageInfo where
+structure PageInfo (α : Type) where
   hasPreviousPage : Bool
   hasNextPage : Bool
-  startCursor : Option Cursor
-  endCursor : Option Cursor
+  startCursor : Option α
+  endCursor : Option α
   deriving Repr, DecidableEq, Inhabited
 
+section
+variable {α : Type} (lt : α → α → Bool)
+
 /-- `before != nil && !c.LessThan(*before)` (pagination.go:32). -/
-def pastBefore (before : Option Cursor) (c : Cursor) : Bool :=
+def pastBefore (before : Option α) (c : α) : Bool :=
   match before with
   | none => false
-  | some b => !(decide (c < b))
+  | some b => !(lt c b)
 
 /-- `after != nil && !(*after).LessThan(c)` (pagination.go:36). -/
-def notPastAfter (after : Option Cursor) (c : Cursor) : Bool :=
+def notPastAfter (after : Option α) (c : α) : Bool :=
   match after with
   | none => false
-  | some a => !(decide (a < c))
+  | some a => !(lt a c)
 
 /-- The loop of `ApplyCursorsToEdges` (pagination.go:30-41). Result: (filtered,
     hadEdgesBeforeAfter, hadEdgesAfterBefore). -/
-def applyCursorsLoop (after before : Option Cursor) : List Cursor → List Cursor × Bool × Bool
+def applyCursorsLoop (after before : Option α) : List α → List α × Bool × Bool
   | [] => ([], false, false)
   | c :: rest =>
     let r := applyCursorsLoop after before rest
-    if pastBefore before c then (r.1, r.2.1, true)
-    else if notPastAfter after c then (r.1, true, r.2.2)
+    if pastBefore lt before c then (r.1, r.2.1, true)
+    else if notPastAfter lt after c then (r.1, true, r.2.2)
     else (c :: r.1, r.2.1, r.2.2)
 
 /-- `ApplyCursorsToEdges` (pagination.go:25-45). -/
-def applyCursorsToEdges (edges : List Cursor) (after before : Option Cursor) : List Cursor × Bool × Bool :=
+def applyCursorsToEdges (edges : List α) (after before : Option α) : List α × Bool × Bool :=
   if after.isNone && before.isNone then (edges, false, false)
-  else applyCursorsLoop after before edges
+  else applyCursorsLoop lt after before edges
 
 /-- `if first != nil { … }` (pagination.go:56-63). `none` = the Go slice expression panics. -/
-def truncateFirst (es : List Cursor) (hadAfterBefore : Bool) : Option Int → Option (List Cursor × Bool)
+def truncateFirst (es : List α) (hadAfterBefore : Bool) : Option Int → Option (List α × Bool)
   | none => some (es, hadAfterBefore)
   | some f =>
     if (es.length : Int) > f then
@@ -76,7 +79,7 @@ def truncateFirst (es : List Cursor) (hadAfterBefore : Bool) : Option Int → Op
     else some (es, false)
 
 /-- `if last != nil { … }` (pagination.go:65-72). -/
-def truncateLast (es : List Cursor) (hadBeforeAfter : Bool) : Option Int → Option (List Cursor × Bool)
+def truncateLast (es : List α) (hadBeforeAfter : Bool) : Option Int → Option (List α × Bool)
   | none => some (es, hadBeforeAfter)
   | some l =>
     if (es.length : Int) > l then
@@ -84,9 +87,9 @@ def truncateLast (es : List Cursor) (hadBeforeAfter : Bool) : Option Int → Opt
     else some (es, false)
 
 /-- `EdgesToReturn` (pagination.go:48-84). `none` = panic (negative `first`/`last`). -/
-def edgesToReturn (sort : List Cursor → List Cursor) (edges : List Cursor)
-    (after before : Option Cursor) (first last : Option Int) : Option (List Cursor × PageInfo) :=
-  let r := applyCursorsToEdges edges after before
+def edgesToReturn (sort : List α → List α) (edges : List α)
+    (after before : Option α) (first last : Option Int) : Option (List α × PageInfo α) :=
+  let r := applyCursorsToEdges lt edges after before
   let es := sort r.1
   match truncateFirst es r.2.2 first with
   | none => none
@@ -98,13 +101,15 @@ def edgesToReturn (sort : List Cursor → List Cursor) (edges : List Cursor)
                    startCursor := es3.head?, endCursor := es3.getLast? })
 
 /-- Insertion sort by the strict comparator — the driver's instance of `sort.Slice`. -/
-def insertSorted (c : Cursor) : List Cursor → List Cursor
+def insertSorted (c : α) : List α → List α
   | [] => [c]
-  | d :: ds => if c < d then c :: d :: ds else d :: insertSorted c ds
+  | d :: ds => if lt c d then c :: d :: ds else d :: insertSorted c ds
 
-def isort : List Cursor → List Cursor
+def isort : List α → List α
   | [] => []
-  | c :: cs => insertSorted c (isort cs)
+  | c :: cs => insertSorted lt c (isort cs)
+
+end
 
 /-! ## The `Connection` resolver -/
 
@@ -139,28 +144,28 @@ structure Sel where
   deriving Repr
 
 /-- Calls received by the application: `ResolveAllEdges(ctx)` or `ResolveEdges(ctx, after, before, limit)`. -/
-inductive Call where
+inductive Call (α : Type) where
   | all
-  | window (after before : Option Cursor) (limit : Int)
+  | window (after before : Option α) (limit : Int)
   deriving Repr, DecidableEq
 
 /-- The application. -/
-structure App where
-  allEdges : List Cursor
-  getter : Option Cursor → Option Cursor → Int → List Cursor
+structure App (α : Type) where
+  allEdges : List α
+  getter : Option α → Option α → Int → List α
   totalCount : Option Int          -- `config.ResolveTotalCount`'s answer; `none` = not configured
 
-structure Conn where
-  edges : List Cursor
-  pageInfo : Option PageInfo       -- `some` iff selected
+structure Conn (α : Type) where
+  edges : List α
+  pageInfo : Option (PageInfo α)   -- `some` iff selected
   totalCount : Option Int          -- `some` iff selected and the field exists
-  calls : List Call
+  calls : List (Call α)
   deriving Repr, DecidableEq
 
-inductive Out where
+inductive Out (α : Type) where
   | error (e : Err)
   | crash                          -- a Go panic would have been reached
-  | ok (c : Conn)
+  | ok (c : Conn α)
   deriving Repr, DecidableEq
 
 /-- pagination.go:485-497. -/
@@ -176,7 +181,7 @@ def checkArgs (a : Args) : Option Err :=
     | none => some .neitherFirstNorLast
 
 /-- pagination.go:501-515: `""` and absent are the same; otherwise `DeserializeCursor`, `nil` ⇒ error. -/
-def decodeArg (dec : String → Option Cursor) : Option String → Option (Option Cursor)   -- outer none = invalid
+def decodeArg {α : Type} (dec : String → Option α) : Option String → Option (Option α)   -- outer none = invalid
   | none => some none
   | some s => if s = "" then some none else
     match dec s with
@@ -190,16 +195,16 @@ def limitOf (a : Args) : Int :=
   | none => -((a.last.getD 0) + 1)
 
 /-- The closure `resolve` of pagination.go:523-530: one call on the application. -/
-def fetch (app : App) (mode : Mode) (after before : Option Cursor) (limit : Int) : List Cursor × Call :=
+def fetch {α : Type} (app : App α) (mode : Mode) (after before : Option α) (limit : Int) : List α × Call α :=
   match mode with
   | .all => (app.allEdges, .all)
   | .window => (app.getter after before limit, .window after before limit)
 
 /-- `completeConnection` (pagination.go:577-657) on a resolved slice: the page, its page info and
     the connection's total count. `none` = panic inside `EdgesToReturn`. -/
-def complete (sort : List Cursor → List Cursor) (app : App) (slice : List Cursor)
-    (after before : Option Cursor) (first last : Option Int) : Option (List Cursor × PageInfo × Int) :=
-  match edgesToReturn sort slice after before first last with
+def complete {α : Type} (lt : α → α → Bool) (sort : List α → List α) (app : App α) (slice : List α)
+    (after before : Option α) (first last : Option Int) : Option (List α × PageInfo α × Int) :=
+  match edgesToReturn lt sort slice after before first last with
   | none => none
   | some (es, pi) =>
     some (es, pi, match app.totalCount with
@@ -207,13 +212,13 @@ def complete (sort : List Cursor → List Cursor) (app : App) (slice : List Curs
                   | none => (slice.length : Int))
 
 /-- Does the `totalCount` field exist (pagination.go:462)? -/
-def hasTotalCountField (app : App) (mode : Mode) : Bool :=
+def hasTotalCountField {α : Type} (app : App α) (mode : Mode) : Bool :=
   mode == .all || app.totalCount.isSome
 
 /-- The `Resolve` function of `Connection` (pagination.go:484-573) together with the lazily
     evaluated `pageInfo` / `totalCount` field resolvers of the returned `*connection`. -/
-def resolve (sort : List Cursor → List Cursor) (dec : String → Option Cursor) (app : App) (mode : Mode)
-    (a : Args) (sel : Sel) : Out :=
+def resolve {α : Type} (lt : α → α → Bool) (sort : List α → List α) (dec : String → Option α)
+    (app : App α) (mode : Mode) (a : Args) (sel : Sel) : Out α :=
   match checkArgs a with
   | some e => .error e
   | none =>
@@ -227,14 +232,14 @@ def resolve (sort : List Cursor → List Cursor) (dec : String → Option Cursor
         let wantTC := sel.totalCount && hasTotalCountField app mode
         if limit = 1 ∨ limit = -1 then
           -- lazy zero-edge path (pagination.go:531-566): nothing is fetched unless asked for
-          let piPart : Option (Option PageInfo × List Call) :=
+          let piPart : Option (Option (PageInfo α) × List (Call α)) :=
             if sel.pageInfo then
               let (slice, call) := fetch app mode after before limit
-              match complete sort app slice after before a.first a.last with
+              match complete lt sort app slice after before a.first a.last with
               | none => none
               | some (_, pi, _) => some (some pi, [call])
             else some (none, [])
-          let tcPart : Option Int × List Call :=
+          let tcPart : Option Int × List (Call α) :=
             if wantTC then
               match app.totalCount with
               | some n => (some n, [])
@@ -245,7 +250,7 @@ def resolve (sort : List Cursor → List Cursor) (dec : String → Option Cursor
           | some (pi, calls) => .ok { edges := [], pageInfo := pi, totalCount := tcPart.1, calls := calls ++ tcPart.2 }
         else
           let (slice, call) := fetch app mode after before limit
-          match complete sort app slice after before a.first a.last with
+          match complete lt sort app slice after before a.first a.last with
           | none => .crash
           | some (es, pi, tc) =>
             .ok { edges := es,
